@@ -1,1 +1,143 @@
-// harnesses for module m_perm (included into /repo under cfg(kani))
+// C13: -perm is a function of the twelve permission bits of the selected status record.
+use super::*;
+use crate::find::matchers::entry::verif_kani::*;
+use crate::find::matchers::Follow;
+
+fn any_ct() -> ComparisonType {
+    match kani::any::<u8>() % 3 { 0 => ComparisonType::Exact, 1 => ComparisonType::AtLeast, _ => ComparisonType::AnyOf }
+}
+fn want_perm(ct: ComparisonType, bits: u32, pat: u32) -> bool {
+    match ct {
+        ComparisonType::Exact => bits == pat,
+        ComparisonType::AtLeast => bits & pat == pat,
+        ComparisonType::AnyOf => pat == 0 || bits & pat != 0,
+    }
+}
+
+// @harness props=C13 tier=quick cost=5
+// @exec PermMatcher::matches, ComparisonType::mode_bits_match, WalkEntry::metadata (cached record)
+// @sym status record (all 32 mode bits incl. file type), MODE in 0..=0o7777, comparison kind (MODE, -MODE, /MODE)
+// @bounds loop-free
+// @witness meta:stat12 pat:u32 which:u8
+// @replay perm_bits
+/// -perm MODE: twelve bits equal; -MODE: all set; /MODE: any set or MODE == 0 — for every mode word.
+#[kani::proof]
+#[kani::stub(alloc::fmt::format, fmt_stub)]
+#[kani::stub(<std::io::Stderr as std::io::Write>::write_fmt, wf_stub)]
+fn c13_perm_bits() {
+    let (m, st) = any_metadata();
+    let entry = entry_with(m, 0, Follow::Never);
+    let pat: u32 = kani::any();
+    kani::assume(pat <= 0o7777);
+    let ct = any_ct();
+    let pm = PermMatcher { comparison_type: ct, file_pattern: pat, dir_pattern: pat };
+    let deps = Deps::new();
+    let mut io = MatcherIO::new(&deps);
+    let got = pm.matches(&entry, &mut io);
+    assert!(got == want_perm(ct, st.st_mode & 0o7777, pat));
+    kani::cover!(got && ct == ComparisonType::Exact && (st.st_mode & 0o7000) != 0);
+    kani::cover!(!got && ct == ComparisonType::AnyOf);
+    kani::cover!(got && ct == ComparisonType::AnyOf && pat == 0);
+    std::mem::forget(entry);
+}
+#[kani::proof]
+#[kani::stub(alloc::fmt::format, fmt_stub)]
+#[kani::stub(<std::io::Stderr as std::io::Write>::write_fmt, wf_stub)]
+fn c13_perm_bits_canary() {
+    let (m, st) = any_metadata();
+    let entry = entry_with(m, 0, Follow::Never);
+    let pat: u32 = kani::any();
+    kani::assume(pat <= 0o7777);
+    let pm = PermMatcher { comparison_type: ComparisonType::Exact, file_pattern: pat, dir_pattern: pat };
+    let deps = Deps::new();
+    let mut io = MatcherIO::new(&deps);
+    let got = pm.matches(&entry, &mut io);
+    assert!(got == ((st.st_mode & 0o777) == pat)); // nine bits only: must FAIL
+    std::mem::forget(entry);
+}
+
+// @harness props=C13 tier=quick cost=60 flags=nomem
+// @exec PermMatcher::matches over WalkEntry::new + Follow::metadata_at_depth with stat/lstat = symbolic world
+// @sym lstat + stat records, stat errno {ENOENT, ELOOP}, follow P/H/L, depth 0..1, MODE, kind
+// @bounds one path; depth <= 1
+// @assume kernel contract for stat vs lstat (see c13_entry_metadata_record)
+/// -perm looks at the record the follow mode selects (stat under -L / -H roots, lstat otherwise, lstat for dangling links).
+#[kani::proof]
+#[kani::unwind(3)]
+#[kani::stub(alloc::fmt::format, fmt_stub)]
+#[kani::stub(<std::io::Stderr as std::io::Write>::write_fmt, wf_stub)]
+#[kani::stub(std::fs::metadata, stat_stub)]
+#[kani::stub(std::fs::symlink_metadata, lstat_stub)]
+fn c13_perm_record() {
+    let (lst, sst, s_ok, s_err) = any_world(&[libc::ENOENT, libc::ELOOP]);
+    let follow = any_follow();
+    let depth: usize = kani::any();
+    kani::assume(depth <= 1);
+    let entry = WalkEntry::new("a", depth, follow);
+    let pat: u32 = kani::any();
+    kani::assume(pat <= 0o7777);
+    let ct = any_ct();
+    let pm = PermMatcher { comparison_type: ct, file_pattern: pat, dir_pattern: pat };
+    let deps = Deps::new();
+    let mut io = MatcherIO::new(&deps);
+    let got = pm.matches(&entry, &mut io);
+    match selected_record(lst, sst, s_ok, s_err, follow.follow_at_depth(depth)) {
+        Some(rec) => assert!(got == want_perm(ct, rec.st_mode & 0o7777, pat)),
+        None => assert!(!got),
+    }
+    kani::cover!(got && follow == Follow::Always && is_type(lst.st_mode, libc::S_IFLNK) && s_ok && (lst.st_mode & 0o7777) != (sst.st_mode & 0o7777));
+    kani::cover!(follow == Follow::Roots && depth == 1 && is_type(lst.st_mode, libc::S_IFLNK));
+    std::mem::forget(entry);
+}
+#[kani::proof]
+#[kani::unwind(3)]
+#[kani::stub(alloc::fmt::format, fmt_stub)]
+#[kani::stub(<std::io::Stderr as std::io::Write>::write_fmt, wf_stub)]
+#[kani::stub(std::fs::metadata, stat_stub)]
+#[kani::stub(std::fs::symlink_metadata, lstat_stub)]
+fn c13_perm_record_canary() {
+    let (lst, _sst, _s_ok, _s_err) = any_world(&[libc::ENOENT]);
+    let follow = any_follow();
+    let entry = WalkEntry::new("a", 0, follow);
+    let pat: u32 = kani::any();
+    kani::assume(pat <= 0o7777);
+    let pm = PermMatcher { comparison_type: ComparisonType::Exact, file_pattern: pat, dir_pattern: pat };
+    let deps = Deps::new();
+    let mut io = MatcherIO::new(&deps);
+    let got = pm.matches(&entry, &mut io);
+    assert!(got == ((lst.st_mode & 0o7777) == pat)); // always lstat: must FAIL
+    std::mem::forget(entry);
+}
+
+// @harness props=C11,C13 tier=quick cost=5
+// @exec parsing::split_comparison_type
+// @sym operand of 1..2 symbolic ASCII bytes
+// @bounds operand length <= 2
+/// The -perm prefix: '-' = all bits, '/' = any bit, anything else = exact; the rest of the operand is untouched; total.
+#[kani::proof]
+#[kani::unwind(4)]
+#[kani::stub(alloc::fmt::format, fmt_stub)]
+fn c13_perm_prefix() {
+    let b: [u8; 2] = kani::any();
+    kani::assume(b[0] < 0x80 && b[1] < 0x80);
+    let len: usize = if kani::any() { 1 } else { 2 };
+    let s = unsafe { std::str::from_utf8_unchecked(&b[..len]) };
+    let (ct, rest) = parsing::split_comparison_type(s);
+    match b[0] {
+        b'-' => assert!(ct == ComparisonType::AtLeast && rest.len() == len - 1),
+        b'/' => assert!(ct == ComparisonType::AnyOf && rest.len() == len - 1),
+        _ => assert!(ct == ComparisonType::Exact && rest.len() == len),
+    }
+    kani::cover!(ct == ComparisonType::AnyOf);
+    kani::cover!(ct == ComparisonType::Exact && len == 2);
+}
+#[kani::proof]
+#[kani::unwind(4)]
+#[kani::stub(alloc::fmt::format, fmt_stub)]
+fn c13_perm_prefix_canary() {
+    let b: [u8; 1] = kani::any();
+    kani::assume(b[0] < 0x80);
+    let s = unsafe { std::str::from_utf8_unchecked(&b[..]) };
+    let (ct, _rest) = parsing::split_comparison_type(s);
+    assert!(ct == ComparisonType::Exact); // must FAIL
+}
